@@ -221,8 +221,61 @@ func iErrorsIs(in *Interp, fn *ssa.Function, a []Value) Value {
 	return in.callFunction(in.errorsPkgFunc("is"), []Value{err, target, mkBool(comparable)}, nil)
 }
 
+// errors.As: the first error in err's tree (Unwrap() error / Unwrap() []error, depth first) whose dynamic type is
+// assignable to what target points to is stored there. Custom As methods are not modelled (abort).
 func iErrorsAs(in *Interp, fn *ssa.Function, a []Value) Value {
-	panic(abort("errors.As not modelled"))
+	err, target := a[0].(Iface), a[1].(Iface)
+	if target.T == nil {
+		panic(goPanic{msg: "errors: target cannot be nil"})
+	}
+	pt, ok := target.T.Underlying().(*types.Pointer)
+	dst, _ := target.V.(*Value)
+	if !ok || dst == nil {
+		panic(goPanic{msg: "errors: target must be a non-nil pointer"})
+	}
+	elem := pt.Elem()
+	_, elemIsIface := elem.Underlying().(*types.Interface)
+	var walk func(e Iface, depth int) bool
+	walk = func(e Iface, depth int) bool {
+		if e.T == nil {
+			return false
+		}
+		if depth > 16 {
+			panic(abort("errors.As: error chain deeper than 16"))
+		}
+		if types.AssignableTo(e.T, elem) {
+			if elemIsIface {
+				*dst = Iface{T: e.T, V: e.V}
+			} else {
+				*dst = copyVal(e.V)
+			}
+			return true
+		}
+		ms := in.L.prog.MethodSets.MethodSet(e.T)
+		if ms.Lookup(nil, "As") != nil {
+			panic(abort("errors.As: custom As method of " + e.T.String()))
+		}
+		sel := ms.Lookup(nil, "Unwrap")
+		if sel == nil {
+			return false
+		}
+		m := in.L.prog.MethodValue(sel)
+		if m == nil {
+			return false
+		}
+		switch r := in.call(m, []Value{e.V}).(type) {
+		case Iface:
+			return walk(r, depth+1)
+		case Slice:
+			for _, x := range r.A {
+				if xi, ok := x.(Iface); ok && walk(xi, depth+1) {
+					return true
+				}
+			}
+		}
+		return false
+	}
+	return mkBool(walk(err, 0))
 }
 
 // countVerbs returns the verbs of a format string in order.
